@@ -18,7 +18,7 @@ PROPS = {
         "level_text": "Generated-input search: tens of thousands (quick) to millions (thorough) of list pairs covering every alignment pattern named in the property; "
                       "each compared with an independent reference of the formula under both methods. No counter-example = no violation among the generated classes, not a proof.",
         "level_note": "trusted: the reference formula in the harness (set based, 30 lines), Go float64 arithmetic, rapid's generators; tolerance 1e-9 relative",
-        "expect_classes": {"lists": ["no matching gene", "excess and disjoint", "gene-less side", "different lengths with disjoint genes", "both genomes carry the same id", "options carry a positive compatibility threshold", "matching gene disabled in both genomes"]},
+        "expect_classes": {"lists": ["no matching gene", "gene lists carved from one backing array", "genomes with different numbers of modules", "excess and disjoint", "gene-less side", "different lengths with disjoint genes", "both genomes carry the same id", "options carry a positive compatibility threshold", "matching gene disabled in both genomes"]},
     },
     "C18": {
         "run": "^TestC18",
@@ -97,7 +97,7 @@ PROPS = {
         "rule": "G-net DAGs: 1-4 inputs, 0-3 bias, 0-8 hidden, 1-3 outputs, random topological order independent of ids, extra-link probability 0-0.6, weights in [-5,5] with occasional +-100; built from constructors or through Genesis; "
                 "non-trivial = a bias link moves an output by > 1e-6 and depth >= 2; distinct by (#in, #bias, #hidden, #out, #links, depth)",
         "assumptions": ["every neuron is reachable from a sensor and each ordered pair carries at most one link (as in every feed-forward genome)", "relaxation is run with the smallest positive delta and a budget of #neurons+2 steps; only the value, not the relaxed flag, is asserted"],
-        "expect_classes": {"dag": ["bias link moves an output by more than 1e-6", "several bias nodes", "depth >= 3", "network expressed from a genome", "network built from constructors", "second input vector on the same instances", "output list in another order than the node list"]},
+        "expect_classes": {"dag": ["bias link moves an output by more than 1e-6", "weights rewritten in place after a solver was derived", "explicit bias values loaded before the evaluation", "flushed between the two vectors", "more than 128 neurons", "several bias nodes", "depth >= 3", "network expressed from a genome", "network built from constructors", "second input vector on the same instances", "output list in another order than the node list"]},
     },
     "C13": {
         "run": "^TestC13",
@@ -111,7 +111,7 @@ PROPS = {
         "rule": "topologies: 2/3 cyclic G-net (link probability 0.05-0.6, self-loops, recurrent flags, parallel links), 1/6 DAG, 1/6 modular genome through Genesis; operations: load / activate(k) / forward(k) / recursive / depth-with-cap(k) for the network, load / forward(k) / recursive / relax(k, delta) for the fast solver; "
                 "non-trivial = the network has a cycle and the history contains an activation after a sensor load; distinct by (solver, #nodes, #links, history length, sequence length)",
         "assumptions": ["bit equality of outputs (NaN equals NaN): both instances perform the same floating-point operations in the same order"],
-        "expect_classes": {"flush": ["network with cycles", "feed-forward network", "modular network", "fast solver", "standard solver", "history activates after a sensor load", "neuron with an unregistered activation type (activations fail)"], "organism": ["recurrent organism"]},
+        "expect_classes": {"flush": ["network with cycles", "fast solver built with the public constructor (bias links as ordinary connections)", "network with more than 128 neurons", "fresh solver derived from the network object of the flushed one", "feed-forward network", "modular network", "fast solver", "standard solver", "history activates after a sensor load", "neuron with an unregistered activation type (activations fail)"], "organism": ["recurrent organism"]},
     },
     "C14": {
         "run": "^TestC14",
@@ -123,7 +123,7 @@ PROPS = {
         "level_note": "trusted: the DP longest-path model; termination is observed (a hang is reported by the driver as a timeout / crash with the case that was running), not proven; graphs have at most 12 neurons because the library enumerates simple paths",
         "rule": "2/3 DAGs (1-8 hidden, orphans allowed), 1/3 cyclic graphs (1-6 hidden, self-loops, parallel links); caps 0-8; non-trivial = depth >= 3 and a capped query below the depth precedes the final query; distinct by (#nodes, #links, depth, acyclic, caps)",
         "assumptions": ["non-modular networks with at least one hidden node (the statement's domain)"],
-        "expect_classes": {"depth": ["more than 32 nodes", "acyclic", "cyclic", "cap below the depth", "capped query hit the cap before the final query", "depth >= 3"]},
+        "expect_classes": {"depth": ["more than 32 nodes", "dense network (more than 100 links)", "paths printed between the queries", "expressed from a genome that also carries a disabled module", "acyclic", "cyclic", "cap below the depth", "capped query hit the cap before the final query", "depth >= 3"]},
     },
     "C15": {
         "run": "^TestC15",
@@ -149,7 +149,7 @@ PROPS = {
         "rule": "1-5 trials x 1-8 generations, per trial a solved generation or none, fault none/error/cancel at a generated point, observer present 3/4, Trials nil or pre-sized, sequential or parallel executor, population 3-8; "
                 "non-trivial = a trial solved before its last generation or a fault after a completed trial; distinct by the whole scenario tuple",
         "assumptions": ["after a fault only 'no further evaluation, no repeated notification, fault returned' is required; a cancellation in the very last planned generation may return nil"],
-        "expect_classes": {"protocol": ["fault:none", "fault:error", "fault:cancel", "evaluator error kind:canceled", "evaluator error kind:deadline", "evaluator failed in the generation it reported solved", "pre-sized record longer than the configured number of trials", "the experiment value was run once before", "options copied from a used object, context from the copy", "context that already carried other options", "with observer", "without observer", "parallel executor", "trial solved before the last generation", "fault after a completed trial"]},
+        "expect_classes": {"protocol": ["fault:none", "fault:deadline", "zero trials configured", "zero generations configured", "maximal number of generations configured (run until solved)", "observer handed over by value (field-less struct)", "observer reads the running experiment through its accessors", "fault:error", "fault:cancel", "evaluator error kind:canceled", "evaluator error kind:deadline", "evaluator failed in the generation it reported solved", "pre-sized record longer than the configured number of trials", "the experiment value was run once before", "options copied from a used object, context from the copy", "context that already carried other options", "with observer", "without observer", "parallel executor", "trial solved before the last generation", "fault after a completed trial"]},
     },
     "C01": {
         "run": "^TestC01",
@@ -188,7 +188,7 @@ PROPS = {
         "rule": "G-epochs scenarios, population 3-40 (120 thorough); a turnover is non-trivial when it starts with >= 2 species, can steal babies (BabiesStolen > 0 and a species older than 5) or runs the all-zero fallback; distinct by (epoch, #species, size, program, stolen, executor, #old species)",
         "assumptions": ["mate_multipoint_avg_prob + mate_singlepoint_prob > 0 (the method is chosen with their ratio)", "random populations containing a gene-less genome are skipped (counted)",
                         "known finding (known_findings.txt): fitness x age significance above the largest float64 is excluded by construction (age significance forced to 1 for near-maximal fitness, counted) and probed by a fixed case on every run"],
-        "expect_classes": {"epochs": ["species:1", "species:2-5", "species:6+", "turnover founding new species", "turnover with species extinction", "turnover where babies can be stolen", "fitness:zero", "fitness values whose sum overflows", "parallel executor", "constructor:random", "constructor:read", "constructor:reread"]},
+        "expect_classes": {"epochs": ["species:1", "species:2-5", "species:6+", "turnover founding new species", "turnover with species extinction", "constructor:file", "turnover repeated after a cancelled attempt", "options object is a by-value copy of a used one", "executor object turned over another population before", "fitness values at the bottom of the float64 range", "log level debug", "turnover where babies can be stolen", "fitness:zero", "fitness values whose sum overflows", "parallel executor", "constructor:random", "constructor:read", "constructor:reread"]},
     },
     "C03": {
         "run": "^TestC03",
@@ -201,7 +201,7 @@ PROPS = {
         "level_note": "trusted: the ledger (two maps and two maxima); the split clause identifies a split by (source, target, flag, innovation of the carrier's split gene); parallel runs are covered by C16 for the first two clauses only",
         "rule": "G-epochs scenarios with structural rates biased upwards, recurrent-only probability 0-0.7, small genomes (collisions of identical innovations are frequent), spawn/random/read constructors; a turnover is non-trivial when it issued new innovation numbers; distinct by (epoch, max innovation, max node id, #species, rec+non-rec pair present)",
         "assumptions": ["sequential executor"],
-        "expect_classes": {"epochs": ["innovation shared by several organisms of one generation", "same split performed by several organisms of one generation", "recurrent and non-recurrent link on the same endpoints", "same link under different numbers in different generations", "turnover issuing new innovation numbers"],
+        "expect_classes": {"wide": ["more than 1024 innovations in one generation"], "interleaved": ["add_node interrupted by another structural mutation (result true)"], "epochs": ["innovation shared by several organisms of one generation", "same split performed by several organisms of one generation", "recurrent and non-recurrent link on the same endpoints", "same link under different numbers in different generations", "turnover issuing new innovation numbers"],
                            "history": ["same link invented by several genomes of one generation", "same split performed by several genomes of one generation", "link of an earlier generation invented again under a new number", "end of generation"]},
     },
     "C10": {
@@ -276,7 +276,7 @@ PROPS = {
         "level_note": "trusted: the canonical dump covers every exported field of organisms, genomes and species and the population counters; 'unrelated earlier work' is sampled by a fixed menu of interference, not enumerated",
         "rule": "G-epochs scenarios with the sequential executor, 1-20 (30) epochs, structural rates biased upwards; non-trivial = at least 5 epochs and the genomes grew (structural mutation and crossover took place); distinct by (constructor, epochs, size, program, seed, dump length)",
         "assumptions": ["the global math/rand source is seeded by the harness per run (go.mod go 1.23, so rand.Seed is effective; asserted at start-up)"],
-        "expect_classes": {"rerun": ["constructor:spawn", "constructor:random", "constructor:read", "constructor:reread", "fitness:genome", "genomes grew", "modular start genome", "large population", "second run with options copied from a used object", "add-link searches that run long", "second run with the options object of earlier work, settings overwritten in place", "generated unrelated scenario between the runs"]},
+        "expect_classes": {"rerun": ["constructor:spawn", "constructor:file", "both runs spawn from one start genome object", "second run turned over by an executor object that served another population", "turnover repeated after a cancelled attempt", "constructor:random", "constructor:read", "constructor:reread", "fitness:genome", "genomes grew", "modular start genome", "large population", "second run with options copied from a used object", "add-link searches that run long", "second run with the options object of earlier work, settings overwritten in place", "generated unrelated scenario between the runs"]},
     },
 }
 
